@@ -4,6 +4,7 @@
 //!   `chk dec|int|f64 <limit> <input>`   `CheckHigherThan::<Decimal|i64|f64>::new(limit).check(&input)`, `name()`
 //!   `notional <q> <p> <cs>`             `calculate_quote_notional`
 //!   `notionalk <kind> <cs> <q> <p>`     `InstrumentKind::contract_size()` fed into `calculate_quote_notional`
+//!                                       (kind: spot perp fut opt | opt-put-eu opt-put-am opt-put-bm opt-call-am opt-call-bm perp-s7 fut-s7)
 //!   `apd <current> <other>`             `calculate_abs_percent_difference`
 //!   `delta <d> <cs> <B|S> <q>`          `calculate_delta` (panics are caught per op and printed as `panic`)
 //!   `rm <state> C <cancel>… O <open>…`  `DefaultRiskManager::<u64>::default().check(&state, cancels, opens)`
@@ -205,9 +206,31 @@ fn kind_of(k: &str, cs: Decimal) -> InstrumentKind<u8> {
             expiry,
             strike: Decimal::ONE_HUNDRED,
         }),
+        // configuration-shape variants (`cfg` family): the other option kinds / exercise styles and another
+        // settlement asset - `contract_size()` must not depend on any of them
+        "opt-put-eu" | "opt-put-am" | "opt-put-bm" | "opt-call-am" | "opt-call-bm" => InstrumentKind::Option(OptionContract {
+            contract_size: cs,
+            settlement_asset: 7,
+            kind: if k.starts_with("opt-put") { OptionKind::Put } else { OptionKind::Call },
+            exercise: match &k[k.len() - 2..] {
+                "am" => OptionExercise::American,
+                "bm" => OptionExercise::Bermudan,
+                _ => OptionExercise::European,
+            },
+            expiry: chrono::DateTime::<chrono::Utc>::from_timestamp(0, 0).unwrap(),
+            strike: Decimal::ZERO,
+        }),
+        "perp-s7" => InstrumentKind::Perpetual(PerpetualContract { contract_size: cs, settlement_asset: 7 }),
+        "fut-s7" => InstrumentKind::Future(FutureContract {
+            contract_size: cs,
+            settlement_asset: 7,
+            expiry: chrono::DateTime::<chrono::Utc>::from_timestamp(0, 0).unwrap(),
+        }),
         other => panic!("bad kind {other}"),
     }
 }
+
+pub const CFG_KINDS: &[&str] = &["opt-put-eu", "opt-put-am", "opt-put-bm", "opt-call-am", "opt-call-bm", "perp-s7", "fut-s7"];
 
 fn run() {
     run_cases(|case, lines| {
@@ -683,6 +706,23 @@ fn generate(seed: u64, n_cases: usize, tier: &str) {
         let len = drng.range(3, if thorough { 16 } else { 10 });
         for _ in 0..len {
             out.line(domain_op(&mut drng));
+        }
+    }
+    // configuration-shape family (`cfg<id>`, own random stream; the cases above stay as they are): `notionalk`
+    // always built a European call settled in asset 0; here puts, American / Bermudan exercise, another
+    // settlement asset, expiry at the epoch, strike 0
+    let mut crng = Rng::new(seed ^ 0xCF_61_C0_3B_5E_ED);
+    for _ in 0..n_cases / 16 {
+        id += 1;
+        out.case(format!("cfg{id}"));
+        for _ in 0..crng.range(2, 6) {
+            let k = *crng.pick(CFG_KINDS);
+            let l = if crng.chance(15) {
+                format!("notionalk {k} {} {} {}", huge_or_small_int(&mut crng), huge_or_small_int(&mut crng), huge_or_small_int(&mut crng))
+            } else {
+                format!("notionalk {k} {} {} {}", small(&mut crng), small(&mut crng), small(&mut crng))
+            };
+            out.line(l);
         }
     }
     out.flush();
